@@ -20,7 +20,9 @@ XFinger(r) ==
   ELSE (IF e.gen = "fail" /\ r.gen = "ok" THEN {<<"C05", "setting-silently-dropped-or-ambiguity-accepted", r.prog.x, r.id>>} ELSE {})
        \cup (IF e.gen = "ok" /\ r.gen # "ok" THEN {<<"C05", "selectable-field-rejected", r.prog.x, r.id>>} ELSE {})
        \cup (IF e.gen = "ok" /\ r.gen = "ok" /\ ~r.compiles THEN {<<"C01", "does-not-compile", "fieldx", r.id>>} ELSE {})
-       \cup (IF e.gen = "ok" /\ r.gen = "ok" /\ r.compiles /\ r.prog.x = "method" /\ r.full # e.val THEN {<<"C05", "wrong-source-selected", r.prog.x, r.id>>} ELSE {})
+       \cup (IF e.gen = "ok" /\ r.gen = "ok" /\ r.compiles /\ r.prog.x \in {"method", "method-ctx"} /\ r.full # e.val THEN {<<"C05", "wrong-source-selected", r.prog.x, r.id>>} ELSE {})
+       \cup (IF r.prog.x = "method-ctx" /\ e.gen = "ok" /\ r.gen # "ok" THEN {<<"C14", "context-parameter-misclassified", "struct-method-" \o (IF r.prog.named THEN "named" ELSE "unnamed"), r.id>>} ELSE {})
+       \cup (IF r.prog.x = "method-ctx" /\ e.gen = "fail" /\ r.gen = "ok" THEN {<<"C14", "context-demand-dropped", "struct-method", r.id>>} ELSE {})
        \cup (IF r.prog.x = "misc" /\ r.gen = "ok" /\ r.compiles /\ r.panic THEN {<<"C02", "panic", "field-path-" \o r.prog.sub, r.id>>} ELSE {})
        \cup (IF r.prog.x = "misc" /\ r.gen = "ok" /\ r.compiles /\ ~r.panic /\ r.vals # e.vals THEN {<<"C05", "wrong-source-selected", "misc-" \o r.prog.sub, r.id>>} ELSE {})
 AccFinger(r) ==
@@ -46,6 +48,15 @@ UpdFinger(r) ==
        \cup (LET m == MustLS(p, Rng(r.nonzero)) IN
              IF m # "open" /\ r.post[5] # m THEN {<<"C10", IF m = "keep" THEN "field-overwritten" ELSE "field-not-updated", "LS", r.id>>} ELSE {})
 
+\* C10 at the category corners (Update.tla CatProgs): post = <<outcome of F, G, H>> for the all-zero and for the all-non-zero source
+CatFinger(r) ==
+  IF r.gen = "panic" THEN {<<"C13", "generator-panic", r.why, r.id>>}
+  ELSE IF r.gen # "ok" THEN {<<"C10", "update-method-rejected", "category-corners", r.id>>}
+  ELSE IF ~r.compiles THEN {<<"C01", "does-not-compile", "update-cat", r.id>>}
+  ELSE IF r.panic THEN {<<"C10", "update-method-panics", "category-corners", r.id>>}
+  ELSE UNION {LET mz == CatMust(r.prog, CatFields[i], FALSE) mf == CatMust(r.prog, CatFields[i], TRUE) IN
+              (IF mz # "open" /\ r.postZero[i] # mz THEN {<<"C10", "field-overwritten", "corner-" \o CatFields[i], r.id>>} ELSE {})
+              \cup (IF r.postFull[i] # mf THEN {<<"C10", "field-not-updated", "corner-" \o CatFields[i], r.id>>} ELSE {}) : i \in 1..3}
 \* C11: a method with a default constructor that is rebuilt in a later sweep (seen rule) still starts from FUNC's result
 RebuildFinger(r) ==
   IF r.gen = "panic" THEN {<<"C13", "generator-panic", r.why, r.id>>}
@@ -151,7 +162,7 @@ Finger18(r) ==
        \cup (IF \E i \in DOMAIN r.decls : r.decls[i] \notin {"struct", "method"} THEN {<<"C18", "extra-top-level-declaration", r.kind, r.id>>} ELSE {})
 Finger0(r) == IF r.kind = "genfile" THEN {}
               ELSE IF r.kind = "update-iface" THEN (IF r.gen = "ok" /\ r.compiles THEN {} ELSE {<<"C10", "update-method-rejected", "interface-member", r.id>>})
-              ELSE IF r.kind = "field" THEN FieldFinger(r) ELSE IF r.kind = "acc" THEN AccFinger(r) ELSE IF r.kind = "fieldx" THEN XFinger(r) ELSE IF r.kind = "default-rebuild" THEN RebuildFinger(r) ELSE IF r.kind = "default-list" THEN ListFinger(r) ELSE IF r.kind = "default-map" THEN MapFinger(r) ELSE IF r.kind = "default-declared-inner" THEN DeclInnerFinger(r) ELSE IF r.kind = "default-fallible" THEN DefFallibleFinger(r) ELSE IF r.kind \in {"update-wrap", "mapfunc-wrap"} THEN UpdWrapFinger(r) ELSE IF r.kind = "update-odd" THEN UpdOddFinger(r) ELSE IF r.kind = "update-tnc" THEN UpdTncFinger(r) ELSE IF r.kind = "mapfunc-parent" THEN MapFuncFinger(r) ELSE IF r.kind \in {"default-update-rec", "default-update-shared"} THEN UpdRecFinger(r) ELSE IF r.kind = "default" THEN DefFinger(r) ELSE UpdFinger(r)
+              ELSE IF r.kind = "field" THEN FieldFinger(r) ELSE IF r.kind = "acc" THEN AccFinger(r) ELSE IF r.kind = "fieldx" THEN XFinger(r) ELSE IF r.kind = "default-rebuild" THEN RebuildFinger(r) ELSE IF r.kind = "default-list" THEN ListFinger(r) ELSE IF r.kind = "default-map" THEN MapFinger(r) ELSE IF r.kind = "default-declared-inner" THEN DeclInnerFinger(r) ELSE IF r.kind = "default-fallible" THEN DefFallibleFinger(r) ELSE IF r.kind \in {"update-wrap", "mapfunc-wrap"} THEN UpdWrapFinger(r) ELSE IF r.kind = "update-odd" THEN UpdOddFinger(r) ELSE IF r.kind = "update-tnc" THEN UpdTncFinger(r) ELSE IF r.kind = "update-cat" THEN CatFinger(r) ELSE IF r.kind = "mapfunc-parent" THEN MapFuncFinger(r) ELSE IF r.kind \in {"default-update-rec", "default-update-shared"} THEN UpdRecFinger(r) ELSE IF r.kind = "default" THEN DefFinger(r) ELSE UpdFinger(r)
 \* C02: no executed method of this family may panic (nil intermediate pointers, nil sources, zero fields are among the inputs)
 PanicFinger(r) == IF "panic" \in DOMAIN r /\ r.panic = TRUE /\ r.gen = "ok" THEN {<<"C02", "panic", "struct-family-" \o r.kind, r.id>>} ELSE {}
 VARIABLES l, bad
